@@ -234,3 +234,65 @@ pub fn run(path: &str, seed: u64, thorough: bool) {
         }
     }
 }
+
+fn heur(c: &mut Cur) -> Option<Heur> {
+    Some(match c.nat()? {
+        0 => Heur::Default,
+        1 => Heur::Never,
+        _ => Heur::Custom(c.list(|c| Some(c.nat()? == 1))?),
+    })
+}
+
+fn chars(c: &mut Cur) -> Option<Vec<char>> {
+    c.list(|c| char::from_u32(c.nat()? as u32))
+}
+
+/// `pm-harness rerun <file>`: re-execute exactly the cases whose record prefixes (everything
+/// before `=>`) are in the file — same patterns, fallback mode, heuristic and hosts — against
+/// the current tree. Used by `check.py --replay`.
+pub fn rerun(path: &str) {
+    let text = std::fs::read_to_string(path).unwrap_or_default();
+    for line in text.lines() {
+        let toks: Vec<&str> = line.split_whitespace().collect();
+        if toks.len() < 3 || toks[0] != "E2E" {
+            println!("BADREC rerun: only end-to-end records of strings, matrices and port graphs can be re-executed");
+            continue;
+        }
+        let mut c = Cur { toks: toks.clone(), i: 2 };
+        let done = match toks[1] {
+            "S" => (|| {
+                let pats = c.list(|c| c.list(|c| charvar(c).and_then(|x| x)))?;
+                let _ff = c.nat()?;
+                let h = heur(&mut c)?;
+                let hosts: Vec<String> = c.list(|c| Some(chars(c)?.into_iter().collect::<String>()))?;
+                string_case("E2E", &pats, &h, &hosts);
+                Some(())
+            })(),
+            "M" => (|| {
+                let pats: Vec<MatPat> = c.list(|c| c.list(|c| c.list(charvar)))?;
+                let _ff = c.nat()?;
+                let h = heur(&mut c)?;
+                let hosts: Vec<Vec<Vec<char>>> = c.list(|c| c.list(chars))?;
+                matrix_case("E2E", &pats, &h, &hosts);
+                Some(())
+            })(),
+            "G" => (|| {
+                let pats: Vec<PgPat> = c.list(|c| {
+                    let g = gdesc(c)?;
+                    let has_root = c.nat()?;
+                    let root = if has_root == 1 { Some(c.nat()?) } else { None };
+                    Some((g, root))
+                })?;
+                let ff = c.nat()? == 1;
+                let h = heur(&mut c)?;
+                let hosts: Vec<GDesc> = c.list(gdesc)?;
+                pg_case("E2E", &pats, ff, &h, &hosts);
+                Some(())
+            })(),
+            _ => None,
+        };
+        if done.is_none() {
+            println!("BADREC rerun: could not parse the record prefix");
+        }
+    }
+}
